@@ -94,6 +94,11 @@ Extract == /\ pc = "search" /\ ds = <<>>
            /\ pc' = "done" /\ UNCHANGED <<S, T, FS, FT, warn, D, ds, bdist, match>>
 Next == Filter \/ Pad \/ BuildMatrix \/ Probe \/ Extract
 Spec == Init /\ [][Next]_vars
+\* liveness: under weak fairness every run reaches "done"; the reason is the variant below (each probe strictly shortens the candidate list)
+FairSpec == Spec /\ WF_vars(Next)
+Termination == <>(pc = "done")
+SearchShrinks == [][(pc = "search" /\ pc' = "search") => Len(ds') < Len(ds)]_vars
+BestNeverWorsens == [][(pc = "search" /\ pc' = "search") => bdist' <= bdist]_vars
 
 \* spec -> code: the diagram set Init ranges over, for replay through the real function
 DumpInit == /\ JsonSerialize(IOEnv.DUMP_FILE, SetToSeq(Dgms(MaxS)))
